@@ -259,7 +259,7 @@ impl Property for C01 {
     type Case = Case;
     const ID: &'static str = "C01";
     fn cases(tier: Tier) -> u64 {
-        tier.pick(8_000, 300_000)
+        tier.pick(24_000, 400_000)
     }
     fn strategy(tier: Tier) -> BoxedStrategy<Case> {
         let n = tier.pick(25usize, 60usize);
